@@ -163,6 +163,42 @@ _SAFE_NAME_REFERENCES = {"len", "abs", "max", "min", "int", "float", "bool", "st
 _MAX_CONST_BITS = 4096
 
 
+# Names a script cannot use for its own variables, functions and parameters, because
+# they are emitted verbatim into the sketch: the C++ keywords, the entry points of the
+# sketch and the identifiers (many of them macros) of the Arduino core.
+_CPP_RESERVED_NAMES = frozenset(
+    """
+    alignas alignof and and_eq asm auto bitand bitor bool break case catch char char8_t
+    char16_t char32_t class compl concept const consteval constexpr constinit const_cast
+    continue co_await co_return co_yield decltype default delete do double dynamic_cast
+    else enum explicit export extern false float for friend goto if inline int long
+    mutable namespace new noexcept not not_eq nullptr operator or or_eq private protected
+    public register reinterpret_cast requires return short signed sizeof static
+    static_assert static_cast struct switch template this thread_local throw true try
+    typedef typeid typename union unsigned using virtual void volatile wchar_t while xor
+    xor_eq
+    setup loop main
+    HIGH LOW INPUT OUTPUT INPUT_PULLUP LED_BUILTIN PI HALF_PI TWO_PI DEG_TO_RAD RAD_TO_DEG
+    DEC HEX OCT BIN LSBFIRST MSBFIRST CHANGE FALLING RISING DEFAULT F PROGMEM PSTR NULL
+    byte boolean word size_t uint8_t uint16_t uint32_t int8_t int16_t int32_t
+    String Serial Servo Wire LiquidCrystal LiquidCrystal_I2C
+    pinMode digitalWrite digitalRead analogWrite analogRead analogReference delay
+    delayMicroseconds millis micros pulseIn pulseInLong shiftIn shiftOut tone noTone
+    random randomSeed map min max abs constrain sq sqrt pow round floor ceil sin cos tan
+    exp log radians degrees bit bitRead bitWrite bitSet bitClear lowByte highByte
+    interrupts noInterrupts attachInterrupt detachInterrupt isnan isinf
+    """.split()
+)
+
+
+def _check_identifier(name: str) -> str:
+    """Return ``name`` if the sketch can declare it, raise :class:`ValueError` otherwise."""
+
+    if name in _CPP_RESERVED_NAMES or ANALOG_PIN_RE.match(name):
+        raise ValueError(f"identifier {name!r} is reserved in C++")
+    return name
+
+
 def _make_list_type_label(element_type: str) -> str:
     """Return the canonical internal type label for a list of ``element_type``."""
 
@@ -563,7 +599,7 @@ def _to_c_expr(
             if len(range_args) == 3:
                 step_expr = emit(range_args[2])
 
-            loop_name = comp.target.id
+            loop_name = _check_identifier(comp.target.id)
             saved_env = vars_env.get(loop_name)
             vars_env[loop_name] = _ExprStr(loop_name)
             var_types_ctx = ctx.setdefault("var_types", {})
@@ -1725,6 +1761,8 @@ def _parse_function(
         raise ValueError("default argument values are not supported")
 
     all_args = list(fn_ast.args.posonlyargs) + list(fn_ast.args.args)
+    for declared_name in [name] + [arg.arg for arg in all_args]:
+        _check_identifier(declared_name)
 
     annotated_return = (
         _annotation_to_type_label(fn_ast.returns)
@@ -1945,6 +1983,10 @@ def _handle_assignment_ast(
             for elt in value.elts
         ):
             return None
+
+    for target_name in target.elts if isinstance(target, (ast.Tuple, ast.List)) else [target]:
+        if isinstance(target_name, ast.Name):
+            _check_identifier(target_name.id)
 
     vars_env = ctx.setdefault("vars", {})
     vars_env["_ctx"] = ctx
@@ -2901,6 +2943,11 @@ def _parse_simple_lines(
                         loop_depth=loop_depth,
                         main_loop=main_loop,
                     )
+                    for declared_name in (m_except.group(1) or "").split("."):
+                        if declared_name:
+                            _check_identifier(declared_name)
+                    if m_except.group(2):
+                        _check_identifier(m_except.group(2))
                     handler = CatchClause(
                         exception=m_except.group(1),
                         target=m_except.group(2),
@@ -3020,7 +3067,7 @@ def _parse_simple_lines(
 
         m = RE_FOR_RANGE.match(line)
         if m:
-            var_name = m.group(1)
+            var_name = _check_identifier(m.group(1))
             args_src = m.group(2)
             count_arg = _extract_call_argument(args_src, position=0)
             extra_arg = _extract_call_argument(args_src, position=1)
